@@ -45,9 +45,11 @@
   `_remove` (`hostlist_remove` through one iterator is `hostlist_delete_nth` for all the OTHERS).
 
   Not proved (correspondence + witnesses only): `hostlist_sort` (not in the editable model: judged against
-  the plain-list specification only); a push while an iterator stands at the end (true once F16-ENDPUSH
-  is repaired: `endpush_witness`; `AtPos` / `itNext_none_pos` of Hostlist/LemmasIterEdit.lean are the
-  invariant it needs); duplicate-freedom after `uniq` (false: F16-UNIQ).
+  the plain-list specification only); duplicate-freedom after `uniq` (false: F16-UNIQ).
+  A push while the iterator stands AT THE END: `edit_refines_push_inside` (one iterator; `Inside` = it stands
+  on a record that exists — what the repaired F16-ENDPUSH keeps true when `hostlist_next` answers NULL,
+  `edit_refines_next_inside`), `edit_refines_push_end_next` (the next `hostlist_next` hands out the first
+  new host); `Inside` is carried through next / create / reset / push only, and for one iterator.
 -/
 import PdshVerif.Hostlist.LemmasFind
 import PdshVerif.Hostlist.LemmasUniq
@@ -58,6 +60,7 @@ import PdshVerif.Hostlist.EditRefineUniq
 import PdshVerif.Hostlist.EditMultiKeyed
 import PdshVerif.Hostlist.EditMultiUniq
 import PdshVerif.Hostlist.EditMultiRemove2
+import PdshVerif.Hostlist.EditPushEnd
 
 namespace PdshVerif.C16
 open PdshVerif.Hostlist PdshVerif.Gen
@@ -239,6 +242,52 @@ theorem uniq_count (cfg : Cfg) (e e' : EL) (hg : e.Good) (hid : e.IdsOk)
     (hb : cfg.fixCmpTrunc = true ∨ ∀ r ∈ e.ranges, r.lo < 2147483648) (hsm : e.hosts.length < 2147483648)
     (h : uniqE cfg e = some e') : e'.nhosts = (e'.hosts.length : Int) ∧ e'.IdsOk :=
   ⟨(uniqE_keep cfg e e' hg hid hb hsm h).1.2, (uniqE_keep cfg e e' hg hid hb hsm h).2⟩
+
+/-! ### a push while the iterator stands at the end (F16-ENDPUSH repaired) -/
+/-- PUSH from anywhere INSIDE the list, the end included (`Inside`: the iterator stands on a record that
+    exists and not beyond its hosts): the iterator will reach the new hosts, and is still inside -/
+theorem edit_refines_push_inside (cfg : Cfg) (hfs : cfg.fixIterSuffix = true) (e : EL) (p : EditSpec.PL) (c : Nat)
+    (fresh : Bool) (h : Ref cfg e p c fresh) (hin : Inside e) (r : HRange) (hr : r.Good) :
+    Ref cfg (pushRangeE e r) { p with names := p.names ++ r.hosts } c false ∧ Inside (pushRangeE e r) :=
+  push_refines_inside cfg hfs e p c fresh h hin r hr
+
+/-- F16-ENDPUSH repaired: `hostlist_next` leaves the iterator inside the list, also when it answers NULL -/
+theorem edit_refines_next_inside (cfg : Cfg) (hfx : cfg.fixEndPush = true) (e : EL) (p : EditSpec.PL) (c : Nat)
+    (fresh : Bool) (h : Ref cfg e p c fresh) (hin : Inside e) (a : Option Str) (e' : EL)
+    (hn : itNext cfg e 0 = .ok (a, e')) : Inside e' :=
+  next_keeps_inside cfg hfx e p c fresh h hin a e' hn
+
+/-- the iterator ran out, a record is pushed: the next `hostlist_next` hands out its first host -/
+theorem edit_refines_push_end_next (cfg : Cfg) (hfs : cfg.fixIterSuffix = true) (e : EL) (p : EditSpec.PL) (c : Nat)
+    (fresh : Bool) (h : Ref cfg e p c fresh) (hin : Inside e) (hend : c = p.names.length) (r : HRange) (hr : r.Good) :
+    ∃ x e' p', r.hosts.head? = some x ∧ itNext cfg (pushRangeE e r) 0 = .ok (some x, e') ∧ Ref cfg e' p' (c + 1) true := by
+  obtain ⟨h1, _⟩ := push_refines_inside cfg hfs e p c fresh h hin r hr
+  obtain ⟨a, p', e', c', hs, hn, hr'⟩ := next_refines cfg _ _ c false h1
+  have hpos := hr.hosts_pos
+  obtain ⟨x, xs, hx⟩ : ∃ x xs, r.hosts = x :: xs := by
+    cases hh : r.hosts with
+    | nil => rw [hh] at hpos; simp at hpos
+    | cons x xs => exact ⟨x, xs, rfl⟩
+  have hget : (p.names ++ r.hosts)[c]? = some x := by
+    rw [hend, List.getElem?_append_right (Nat.le_refl _), Nat.sub_self, hx]; rfl
+  have hgc : EditSpec.getCur ({ p with names := p.names ++ r.hosts } : EditSpec.PL) 0 = some c := by
+    unfold EditSpec.getCur; rw [show ({ p with names := p.names ++ r.hosts } : EditSpec.PL).cur = p.cur from rfl, h.cur]; simp
+  have hs' : EditSpec.itNext ({ p with names := p.names ++ r.hosts } : EditSpec.PL) 0 =
+      some (some x, EditSpec.setCur { p with names := p.names ++ r.hosts } 0 (c + 1)) := by
+    unfold EditSpec.itNext; rw [hgc]; simp [hget]
+  rw [hs'] at hs
+  simp only [Option.some.injEq, Prod.mk.injEq] at hs
+  obtain ⟨ha, hp'⟩ := hs
+  subst ha
+  have hc' : c' = c + 1 := by
+    have := hr'.cur
+    rw [← hp'] at this
+    unfold EditSpec.setCur at this
+    rw [show ({ p with names := p.names ++ r.hosts } : EditSpec.PL).cur = p.cur from rfl, h.cur] at this
+    simp at this
+    omega
+  subst hc'
+  exact ⟨x, e', p', by rw [hx]; rfl, hn, hr'⟩
 
 /-! ### `edit_refines_multi`: ANY finite set of live iterators refines the plain list with one cursor each
 
